@@ -343,6 +343,7 @@ func (inv *Invoice) Normalize(normalizers tax.Normalizers) {
 	tax.Normalize(normalizers, inv.Charges)
 	tax.Normalize(normalizers, inv.Ordering)
 	tax.Normalize(normalizers, inv.Payment)
+	tax.Normalize(normalizers, inv.Delivery)
 }
 
 func (inv *Invoice) supportedTags() []cbc.Key {
